@@ -141,6 +141,9 @@ def make_symbolic(eng, name, spec, st, assumptions):
             cell = {"n": n, "items": z3.Array(name + ".items", z3.IntSort(), zsort(spec.elem))}
         st = St(st.env, {**st.heap, name: cell}, st.pc + [n >= 0], st.ghost)
         return Ref(name, "list"), st
+    if type(spec).__name__ == "DictT":
+        from . import dicts
+        return dicts.symbolic(eng, name, spec, st)
     if isinstance(spec, OptT):
         return Opq(z3.Const(name, V)), st
     if isinstance(spec, TupleT):
